@@ -4,7 +4,7 @@
 # edits in progress do not disturb a long run); the snapshot is removed at the end.
 # usage: mutation_matrix.sh [seed ...]      (default: all; PAR=<n> seeds in parallel, default 3)
 # A seed whose meta.json names "check_with": ["C13", ...] is run against those checks instead of its own property's.
-out=/verif/seeded/RESULTS.txt
+out=${OUT:-/verif/seeded/RESULTS.txt}
 snap=$(mktemp -d /tmp/verifsnap-XXXXXX)
 git -C /verif archive HEAD | tar -x -C $snap
 export VERIF_HOME=$snap
